@@ -139,3 +139,38 @@ fn strip_root(v: &mut Value, root: &str) {
         _ => {}
     }
 }
+
+/// Materialise `tree`, run create_simple_plan (the `replace` planner) from inside the root.
+pub fn simple_plan_tree(req: &Value) -> Value {
+    let dir = tempfile::tempdir().expect("tempdir");
+    let root = dir.path().canonicalize().expect("canon");
+    if let Err(e) = materialize(&root, &req["tree"]) {
+        return json!({"error": format!("materialize: {}", e)});
+    }
+    let Some(pattern) = str_field(req, "pattern") else { return json!({"skip": "utf8"}) };
+    let Some(replacement) = str_field(req, "replacement") else { return json!({"skip": "utf8"}) };
+    let is_regex = req["regex"].as_bool().unwrap_or(false);
+    let mut opts = PlanOptions::default();
+    opts.no_acronyms = true;
+    opts.coerce_separators = renamify_core::scanner::CoercionMode::Off;
+    let r = with_cwd(&root, || renamify_core::scanner::create_simple_plan(&pattern, &replacement, vec![], &opts, is_regex));
+    match r {
+        Ok(plan) => {
+            let mut v = serde_json::to_value(&plan).unwrap();
+            let rs = root.to_string_lossy().to_string();
+            strip_root(&mut v, &rs);
+            json!({"ok": true, "plan": v})
+        }
+        Err(e) => json!({"ok": false, "msg": format!("{:#}", e)}),
+    }
+}
+
+/// preview::render_plan(plan, Diff, no colour)
+pub fn render_diff(req: &Value) -> Value {
+    let plan: Plan = match serde_json::from_value(req["plan"].clone()) {
+        Ok(p) => p,
+        Err(e) => return json!({"error": format!("input plan: {}", e)}),
+    };
+    let out = renamify_core::preview::render_plan(&plan, renamify_core::preview::Preview::Diff, Some(false));
+    json!({"ok": out})
+}
